@@ -164,6 +164,8 @@ def truths_ref(tomo, d, m, seed):
         st = dict(A.states_ref(d, seed))
         if d == 2:
             st["aligned_x0"] = _rot([_bloch((1, 0, 0))], 2, seed)[0]       # eigenstate of the tester 'px': a point-mass schedule
+            # the same state depolarised by 8e-9: one outcome of that schedule has probability 4e-9 (tiny but not zero)
+            st["nearly_aligned_x0"] = (1 - 8e-9) * st["aligned_x0"] + 8e-9 * np.eye(2) / 2
         return st
     if tomo == "povmt":
         pv = {k: v for k, v in A.povms_ref(d, seed).items() if len(v) == m}
